@@ -297,17 +297,15 @@ func IsValidUser(name string) bool {
 // valid input characters to non-rfc-valid characters. As such, it's main use
 // is for comparing two nicks.
 func ToRFC1459(input string) string {
-	var out string
+	out := []byte(input)
 
-	for i := 0; i < len(input); i++ {
-		if input[i] >= 65 && input[i] <= 94 {
-			out += string(rune(input[i]) + 32)
-		} else {
-			out += string(input[i])
+	for i := 0; i < len(out); i++ {
+		if out[i] >= 65 && out[i] <= 94 {
+			out[i] += 32
 		}
 	}
 
-	return out
+	return string(out)
 }
 
 const globChar = "*"
